@@ -11,3 +11,6 @@ open XotModel.Props
 #print axioms C02_scope_nearest
 #print axioms C02_scope_base
 #print axioms C02_scope_unprefixed_attribute
+#print axioms C02_spelled_fragment
+#print axioms C02_spelled_document
+#print axioms C02_envBase_fresh
